@@ -132,7 +132,7 @@ def step (_ : Unit) (ln : Line) : Unit × String :=
   | "none_of" => boo (noneOf p a f l) (!R.any p)
   | "count" => out (fmtE fmtIdx (count eqf g.v a f l)) (fmtIdx (Spec.count (fun x => eqf x g.v) R))
   | "count_if" => out (fmtE fmtIdx (countIf p a f l)) (fmtIdx (Spec.count p R))
-  | "for_each" => lst (forEach a f l) R
+  | "for_each" => out (fmtE (fun (x : List E) => s!"{fmtList x} fn={x.length}") (forEach a f l)) s!"{fmtList R} fn={R.length}"
   | "for_each_n" =>
     out (fmtE (fun (r : Nat × List E) => s!"r={r.1} v={fmtList r.2}") (forEachN a f l g.n))
       s!"r={f + g.n.toNat} v={fmtList (R.take g.n.toNat)}"
@@ -249,7 +249,7 @@ def step (_ : Unit) (ln : Line) : Unit × String :=
     let s := Spec.shiftRight R g.n
     let unspec (r : Nat) := if g.n ≤ 0 || g.n.toNat ≥ l - f then (r, r) else (f, r)
     let sa := if g.n ≤ 0 || g.n.toNat ≥ l - f then a else splice a f l (R.take s.2 ++ s.1)
-    out (fmtE (fun (r : List E × Nat) => s!"r={r.2} a={fmtMask r.1 (unspec r.2).1 (unspec r.2).2}") (shiftRight 0 a f l g.n))
+    out (fmtE (fun (r : List E × Nat) => s!"r={r.2} a={fmtMask r.1 (unspec r.2).1 (unspec r.2).2}") (if g.ov == "nd" then shiftRightNoFill a f l g.n else shiftRight 0 a f l g.n))
       s!"r={f + s.2} a={fmtMask sa (unspec (f + s.2)).1 (unspec (f + s.2)).2}"
   | "partition" =>
     let s := Spec.stablePartition p R
